@@ -26,13 +26,17 @@ RULE = (
     "kinds (always one Energy or Poynting), optional dense random real initial fields (then stepped with "
     "custom_fdtd_forward(reset_container=False), otherwise run_fdtd), 10..30 steps. The spec is run with "
     "complex=None and complex=True. Non-trivial = a TFSF source that is switched on at some step, a quadratic "
-    "detector with a non-zero record and non-zero final fields. Distinct = sha1 of the case JSON."
+    "detector with a non-zero record in a region the wave has reached, and non-zero final fields. Distinct = sha1 of the case JSON."
 )
 ASSUMPTIONS = [
     "'no non-zero Bloch phase' is generated as: periodic axes use BlochBoundary(bloch_vector=0), no 'bloch' faces",
     "'same detector outputs' is read as equality of the raw detector state arrays of the two runs",
     "tolerance 1e-9 (f64, complex128 storage) / 2e-4 (f32, complex64 storage) relative to the largest magnitude of "
     "the compared quantity; the imaginary part is bounded relative to the largest |Re| of the same field",
+    "the two runs are not bit-identical (Re differs by ~5e-16 / 2e-7 of max|F|), and such round-off travels with the "
+    "wave: Field/Phasor records use scale = max(max|record|, rho*max|F| over the whole domain and all steps), "
+    "Energy/Poynting records are compared only where the local field reaches rho*max|F| (rho = 1e-3 f64 / 0.1 f32), "
+    "reduced Poynting sums are scaled by their cancellation factor from an unreduced twin detector",
     "initial fields, when present, are real and identical in both runs (cast to the storage dtype)",
 ]
 
@@ -171,7 +175,29 @@ def case_strategy(draw, ctx):
     return {"scene": scene, "init": {"amp": draw(st.sampled_from([0.0, 0.0, 0.3])), "seed": draw(st.integers(0, 2**31 - 1))}}
 
 
+TWIN = "__cells"
+ALL = "__all"
+
+
+def _with_aux(spec):
+    """Auxiliary detectors (identical in both runs) that only put a scale on round-off:
+    `__all` = raw fields of the whole domain at every step (round-off made where the field is large travels with
+    the wave, so the noise floor in a quiet corner is eps*max|F| in absolute terms); an unreduced twin of every
+    reduced Poynting detector (cancellation factor of the reduced sum)."""
+    sc = copy.deepcopy(spec)
+    sc["detectors"].append({"type": "field", "name": ALL, "exact": False, "switch": {}, "lo": [0, 0, 0],
+                            "hi": list(spec["shape"]), "reduce": False,
+                            "components": ["Ex", "Ey", "Ez", "Hx", "Hy", "Hz"]})
+    for d in spec["detectors"]:
+        if d["type"] == "poynting" and d.get("reduce"):
+            t = copy.deepcopy(d)
+            t.update(name=d["name"] + TWIN, reduce=False)
+            sc["detectors"].append(t)
+    return sc
+
+
 def _run(spec, lane, cplx, init):
+    """init: raw real (E0, H0) or None; projected onto the walls with this run's own boundary objects."""
     import fdtdx
     from fdtdx.fdtd.fdtd import custom_fdtd_forward
 
@@ -181,7 +207,7 @@ def _run(spec, lane, cplx, init):
     if init is None:
         state = fdtdx.run_fdtd(b.arrays, b.objects, b.config, b.key, show_progress=False)
     else:
-        arrays = scenes.set_fields(b.arrays, init[0], init[1])
+        arrays = scenes.project_walls(scenes.set_fields(b.arrays, init[0], init[1]), b.objects)
         state = custom_fdtd_forward(arrays, b.objects, b.config, b.key, reset_container=False,
                                     record_detectors=True, start_time=0, end_time=sp["steps"], show_progress=False)
     arr = state[1]
@@ -207,14 +233,13 @@ def body(ctx, case):
     init = None
     if case["init"]["amp"]:
         shape = tuple(spec["shape"])
-        b0 = scenes.build({**copy.deepcopy(spec), "sources": [], "detectors": []}, ctx.lane)
-        E0 = scenes.random_field(case["init"]["seed"], shape, False, (), case["init"]["amp"])
-        H0 = scenes.random_field(case["init"]["seed"] + 1, shape, False, (), case["init"]["amp"])
-        arr = scenes.project_walls(scenes.set_fields(b0.arrays, E0, H0), b0.objects)
-        init = (np.asarray(arr.fields.E), np.asarray(arr.fields.H))
+        init = (scenes.random_field(case["init"]["seed"], shape, False, (), case["init"]["amp"]),
+                scenes.random_field(case["init"]["seed"] + 1, shape, False, (), case["init"]["amp"]))
 
-    Er, Hr, recr, _ = _run(spec, ctx.lane, None, init)
-    Ec, Hc, recc, _ = _run(spec, ctx.lane, True, init)
+    by_name = {d["name"]: d for d in spec["detectors"]}
+    full = _with_aux(spec)
+    Er, Hr, recr, _ = _run(full, ctx.lane, None, init)
+    Ec, Hc, recc, _ = _run(full, ctx.lane, True, init)
 
     ctx.check(not np.iscomplexobj(Er) and not np.iscomplexobj(Hr),
               "default storage is complex although no boundary carries a Bloch phase", observed=str(Er.dtype))
@@ -224,7 +249,15 @@ def body(ctx, case):
 
     tfsf_on = any(s["type"] in TFSF and s["amp"] != 0 and scenes.switch_on_steps(s["switch"], steps)
                   for s in spec["sources"])
-    quad_live = any(_amax(v) > 0 for n, t in dets.items() if t in QUAD for v in recr[n].values())
+    rho = ctx.tol(1e-3, 0.1)  # quiet-region floor as a fraction of max|F| over the whole domain and all steps
+    allr = recr[ALL]["fields"]
+    fmax = max(_amax(allr), _amax(recc[ALL]["fields"]), 1e-300)
+
+    def quiet(d):
+        region = (slice(None), slice(None), *(slice(max(lo - 1, 0), hi + 1) for lo, hi in zip(d["lo"], d["hi"])))
+        return _amax(allr[region]) < rho * fmax
+
+    quad_live = any(_amax(v) > 0 and not quiet(by_name[n]) for n, t in dets.items() if t in QUAD for v in recr[n].values())
     if max(_amax(Er), _amax(Hr)) == 0.0:
         raise Skip()
     ctx.classify("tfsf-on" if tfsf_on else "tfsf-off", "quad-live" if quad_live else "quad-zero")
@@ -241,15 +274,34 @@ def body(ctx, case):
                   observed=im, expected=0.0, tolerance=tol)
 
     ctx.check(set(recr) == set(recc), "detector sets differ", observed=sorted(recc), expected=sorted(recr))
+    ctx.close(recc[ALL]["fields"], allr, scale=fmax, tol=tol, msg="field history (Re, all cells, all steps) differs",
+              metric="re_history")
     for name, typ in dets.items():
+        d = by_name[name]
         ctx.check(set(recr[name]) == set(recc[name]), f"detector {name}: state keys differ")
         for key, vr in recr[name].items():
             vc = recc[name][key]
             ctx.check(vr.dtype == vc.dtype, f"{typ} detector {name}[{key}]: record dtype differs",
                       observed=str(vc.dtype), expected=str(vr.dtype))
             big = max(_amax(vr), _amax(vc))
+            if typ in ("field", "phasor"):
+                big = max(big, (2.0 if typ == "phasor" else 1.0) * rho * fmax)
+            else:
+                if quiet(d):
+                    # relative noise of a quadratic record is 2*eps*max|F|/|F_local|: outside the stated tolerance
+                    ctx.classify("quadratic-in-quiet-region-not-checked")
+                    continue
+                if typ == "poynting" and d.get("reduce"):
+                    tw = recr[name + TWIN][key].astype(np.float64)
+                    tw = tw.reshape(tw.shape[0], 3, -1) if d.get("keep_all") else tw.reshape(tw.shape[0], -1)
+                    a, b = _amax(np.abs(tw).sum(axis=-1)), _amax(tw.sum(axis=-1))
+                    if b == 0.0:
+                        ctx.classify("flux-sum-fully-cancelled")
+                        continue
+                    big *= max(1.0, a / b * (8.0 if spec["grid"]["kind"] == "rect" else 1.0))
             if big == 0.0:
                 continue
+            ctx.classify("record-compared:" + typ)
             ctx.close(vc, vr, scale=big, tol=tol, msg=f"{typ} detector {name}[{key}] differs between real and complex run",
                       metric="det_" + typ)
 
